@@ -218,7 +218,14 @@ def _oracle(world, scn, res, exp_sig, exp_g, t_cause, t_end):
                 for tk, _ in kills[:1]:
                     alive_tk = (c.death_time is None or c.death_time >= tk - TOL)
                     worker_alive_tk = died is None or died >= tk - TOL
-                    if alive_tk and worker_alive_tk:
+                    # still a descendant at that instant: every process between it and the worker is alive (a process
+                    # whose parent has died is re-parented to init and no longer belongs to the worker's tree)
+                    in_tree, q = True, c.orig_parent
+                    while q is not None and q is not p:
+                        if q.death_time is not None and q.death_time < tk - TOL:
+                            in_tree = False
+                        q = q.orig_parent
+                    if alive_tk and worker_alive_tk and in_tree:
                         res.check('C03.children_kill', any(abs(t - tk) <= TOL and s == KILL for t, s in csig),
                                   lambda: 'descendant %d of worker %d alive at the SIGKILL but not killed (%s)'
                                   % (c.pid - PID_BASE, p.pid - PID_BASE, csig),
